@@ -277,6 +277,132 @@ def _nullable_var_nonnull_arg(c: int, supply: int) -> bool:
     return result(ok, True)
 
 
+# ------------------------------------------------------------------ CoerceArgumentValues (spec 6.4.1) as a full product
+from py_gql.schema import Directive  # noqa: E402
+
+#            (type, literal, json value, coerced value, default literal-free coerced default)
+FAMILIES = (("Int", "4", 4, 4, 3), ("Color", "BLUE", "BLUE", "blue", 1), ("In", "{req: 2}", {"req": 2}, {"req": 2, "dflt": 7, "col": "blue"}, {"req": 1, "dflt": 7, "col": "blue"}),
+            ("[Int]", "5", 5, [5], [1]), ("String", '"s"', "s", "s", "dd"))
+VAR_DEFAULT_LITERAL = {"Int": ("9", 9), "Color": ("RED", 1), "In": ("{req: 8}", {"req": 8, "dflt": 7, "col": "blue"}), "[Int]": ("[9]", [9]), "String": ('"vd"', "vd")}
+SUPPLIES = ("omitted", "literal", "literal-null", "var-value", "var-null", "var-omitted", "var-omitted-vdefault", "var-omitted-vdefault-null", "var-value-vdefault", "var-null-vdefault")
+ARG_DEFAULTS = ("none", "value", "null")
+NOVAL = "<no value>"
+
+
+def spec_argument(nonnull, adef, adef_value, supply, lit_coerced, vdefault_coerced):
+    """spec 6.4.1 for ONE argument definition; returns ("error",) | ("absent",) | ("value", v).  Variable validity (allowed position) is decided by the caller."""
+    has_value, value = False, None
+    if supply == "literal":
+        has_value, value = True, lit_coerced
+    elif supply == "literal-null":
+        has_value, value = True, None
+    elif supply in ("var-value", "var-value-vdefault"):
+        has_value, value = True, lit_coerced
+    elif supply in ("var-null", "var-null-vdefault"):
+        has_value, value = True, None
+    elif supply == "var-omitted-vdefault":
+        has_value, value = True, vdefault_coerced          # CoerceVariableValues puts the default in coercedValues
+    elif supply == "var-omitted-vdefault-null":
+        has_value, value = True, None
+    if not has_value and adef != "none":
+        return ("value", adef_value if adef == "value" else None)
+    if nonnull and (not has_value or value is None):
+        return ("error",)
+    if has_value:
+        return ("value", value)
+    return ("absent",)
+
+
+def var_is_nullable(nonnull, adef, supply):
+    """the variable is declared with the argument's named type; nullable when it declares a default, or when it is omitted / null and the argument default makes the position legal"""
+    return (not nonnull) or "vdefault" in supply or (supply in ("var-omitted", "var-null") and adef != "none")
+
+
+def position_allowed(nonnull, adef, supply):
+    """spec 5.8.5 IsVariableUsageAllowed for a variable declared with the argument's named type: nullable when it declares a default, else the argument's own type"""
+    if not supply.startswith("var"):
+        return True
+    var_nullable = var_is_nullable(nonnull, adef, supply)
+    if nonnull and var_nullable:
+        has_nonnull_vdefault = supply in ("var-omitted-vdefault", "var-value-vdefault", "var-null-vdefault")
+        return has_nonnull_vdefault or adef != "none"
+    return True
+
+
+def run_matrix(fam, nonnull, adef, pyname, supply, consumer):
+    tname, lit, js, coerced, adefault = FAMILIES[fam]
+    world = make_world()
+    base = parse_texpr(world, tname)
+    at = NonNullType(base) if nonnull else base
+    kw = {}
+    if adef == "value":
+        kw["default_value"] = adefault
+    elif adef == "null":
+        kw["default_value"] = None
+    if pyname:
+        kw["python_name"] = "x_py"
+    seen = []
+
+    def resolver(root, ctx, info, **kwargs):
+        seen.append(kwargs if consumer == "field" else info.get_directive_arguments("cfg"))
+        return 1
+    if consumer == "field":
+        q = ObjectType("Query", [Field("f", Int, args=[Argument("x", at, **kw), Argument("d", Int, default_value=5)], resolver=resolver)])
+        schema = Schema(q)
+    else:
+        q = ObjectType("Query", [Field("f", Int, resolver=resolver)])
+        schema = Schema(q, directives=[Directive("cfg", ["FIELD"], args=[Argument("x", at, **kw), Argument("d", Int, default_value=5)])])
+    vdl, vdc = VAR_DEFAULT_LITERAL[tname]
+    var_type = tname + ("" if var_is_nullable(nonnull, adef, supply) else "!")
+    decl = ""
+    if supply.startswith("var"):
+        decl = "query ($v: %s%s) " % (var_type, (" = " + vdl) if supply.endswith("vdefault") else (" = null" if supply.endswith("vdefault-null") else ""))
+    args = {"omitted": "", "literal": "(x: %s)" % lit, "literal-null": "(x: null)"}.get(supply, "(x: $v)")
+    variables = {}
+    if supply in ("var-value", "var-value-vdefault"):
+        variables = {"v": js}
+    elif supply in ("var-null", "var-null-vdefault"):
+        variables = {"v": None}
+    text = decl + ("{ f%s }" % args if consumer == "field" else "{ f @cfg%s }" % args)
+    res = graphql_blocking(schema, text, variables=variables)
+    return seen, res, text, (coerced, adefault, vdc)
+
+
+def _argument_matrix(fam: int, nonnull: bool, adef: int, pyname: bool, supply: int, consumer: bool) -> bool:
+    """
+    pre: 0 <= fam < len(FAMILIES) and 0 <= adef < 3 and 0 <= supply < len(SUPPLIES)
+    pre: shard_of(fam * 3 + adef)
+    post: _
+    """
+    F = concrete_int(fam, 0, len(FAMILIES) - 1)
+    NNL = True if nonnull else False
+    AD = pick(adef, ARG_DEFAULTS)
+    PY = True if pyname else False
+    SU = pick(supply, SUPPLIES)
+    CO = "directive" if consumer else "field"
+    if AD == "null" and NNL:
+        return result(True, False)           # a null default for a non-null argument is not a valid schema
+    with untraced():
+        seen, res, text, (coerced, adefault, vdc) = run_matrix(F, NNL, AD, PY, SU, CO)
+        key = "x_py" if PY else "x"
+        if NNL and SU == "literal-null" or (SU == "var-null" and not var_is_nullable(NNL, AD, SU)):
+            # null literal / null for a non-null variable: rejected before execution (validation / variable coercion)
+            ok = seen == [] and bool(res.errors)
+            return result(ok, True)
+        if not position_allowed(NNL, AD, SU):
+            ok = seen == [] and bool(res.errors)
+            return result(ok, False)
+        exp = spec_argument(NNL, AD, adefault, SU, coerced, vdc)
+        if exp[0] == "error":
+            ok = seen == [] and bool(res.errors)
+        else:
+            kwargs = {"d": 5}
+            if exp[0] == "value":
+                kwargs[key] = exp[1]
+            ok = seen == [kwargs] and not res.errors
+    return result(ok, exp[0] != "error")
+
+
 CONDITIONS = [
     Cond(
         name="nullable_var_nonnull_arg", fn=_nullable_var_nonnull_arg, quick=60, thorough=60,
@@ -290,6 +416,15 @@ CONDITIONS = [
         symbolic={"case": "choice: index into the generated case table", "default_var": "choice: variable declares '= null'"},
         assumptions=["oracle: spec input coercion (sections 3.5-3.10, 6.4.1) transcribed in spec_coerce", "resolver kwargs observed by a recording resolver through graphql_blocking"],
         witness={"case": 1, "default_var": False},
+    ),
+    Cond(
+        name="argument_matrix", fn=_argument_matrix, quick=120, thorough=300, per_path=60, shards_quick=15, shards_thorough=15,
+        bound="CoerceArgumentValues as a full product: %d type families x nullable/non-null argument x argument default (none/value/null) x python_name (same/different) x %d ways of supplying the value "
+              "(omitted, literal, literal null, variable given / null / omitted, each with and without a variable default, default null) x consumer (field argument seen by the resolver, directive argument seen through "
+              "info.get_directive_arguments): resolver kwargs equal spec 6.4.1 keyed by python_name, rejected cases never reach the resolver" % (len(FAMILIES), len(SUPPLIES)),
+        symbolic={"fam,nonnull,adef,pyname,supply,consumer": "choice"},
+        assumptions=["oracle: spec 6.4.1 CoerceArgumentValues + 5.8.5 IsVariableUsageAllowed transcribed in spec_argument / position_allowed"],
+        witness={"fam": 0, "nonnull": False, "adef": 1, "pyname": True, "supply": 5, "consumer": False},
     ),
     Cond(
         name="int_variable", fn=_int_variable, quick=30, thorough=120,
